@@ -253,7 +253,22 @@ func (q *quietTB) FailNow()                          { q.failed = true }
 func (q *quietTB) Fail()                             { q.failed = true }
 func (q *quietTB) Failed() bool                      { return q.failed }
 
+// crashCapture: with VERIF_CRASHCAP=<property id> set (by the driver, for checks whose SUT
+// runs its own goroutines) the case about to be executed is written to
+// $VERIF_CRASHCAP_FILE first, so that when a panic on a goroutine of the code under test
+// kills the whole test binary the driver still has the case that did it (the replay file).
+func crashCapture[C any](c C) {
+	f := os.Getenv("VERIF_CRASHCAP_FILE")
+	if f == "" {
+		return
+	}
+	if b, err := json.Marshal(map[string]any{"property": os.Getenv("VERIF_CRASHCAP"), "case": c}); err == nil {
+		_ = os.WriteFile(f, b, 0o644)
+	}
+}
+
 func safeExec[C any](exec func(C) Result, c C) (res Result) {
+	crashCapture(c)
 	defer func() {
 		if p := recover(); p != nil {
 			st := string(debug.Stack())
